@@ -20,6 +20,13 @@ Check (C14_balanced : forall tr p, core p = true -> let m := snd (run tr init p)
   (forall a x, nth_error (allocs m) a = Some x -> a_freed x = true) /\
   (forall r x, nth_error (arcs m) r = Some x -> r_strong x = r_caller x /\ r_freed x = (r_caller x =? 0))).
 Print Assumptions C14_balanced.
+Check (C14_eq_ord_hash_coincide : forall tr p, core p = true ->
+  forallb (fun o => cmp_coherent (res_of o)) (fst (run tr init p)) = true).
+Print Assumptions C14_eq_ord_hash_coincide.
+Check (C14_eq_is_content_equality : forall tr s h h' d o d' o', sget s h = Some (d, o) -> sget s h' = Some (d', o') ->
+  fst (fst (fst (sstep tr s (Cmp h h')))) = RCmp (lcmp d d') (ceqb d d') (ceqb d d') /\
+  (ceqb d d' = true <-> d = d') /\ (lcmp d d' = 1 <-> d = d')).
+Print Assumptions C14_eq_is_content_equality.
 Check (C14_balanced_counters : forall tr p, core p = true -> let m := snd (run tr init p) in all_consumed m ->
   wsum da_of (fst (run tr init p)) = wsum held (arcs m) /\
   wsum de_of (fst (run tr init p)) = wsum (held_elems tr) (arcs m)).
